@@ -327,7 +327,10 @@ def main():
             continue
 
         def still(c, key=p['key']):
-            ps, _, _ = evaluate(prop, [c], variant, want_model=getattr(prop, 'ORACLE_NEEDS_MODEL', False))
+            try:
+                ps, _, _ = evaluate(prop, [c], variant, want_model=getattr(prop, 'ORACLE_NEEDS_MODEL', False))
+            except (IndexError, KeyError, ValueError, AttributeError):
+                return False        # the oracle addresses result lines by position: this candidate removed one it needs
             return any(q['kind'] == 'oracle' and q['key'] == key for q in ps)
         small = shrink(prop, p['scn'], variant, still)
         path = write_replay(pid, 'oracle=%s cause=%s\nseed=%d tier=%s variant=%s\n%s' % (
